@@ -189,8 +189,17 @@ theorem transferLockCore_tsub {s s' : State} {q c n nt : Nat} {o : SyncOwner} {k
         | some r =>
           cases r with
           | none =>
-            simp only [he, Option.some.injEq, Prod.mk.injEq] at h
-            rw [← h.1]; exact TSub.refl s _
+            simp only [he] at h
+            by_cases hcn : c = nt'
+            · simp only [hcn, if_true, Option.some.injEq, Prod.mk.injEq] at h
+              rw [← h.1]; exact TSub.refl s _
+            · simp only [hcn, if_false] at h
+              cases ha : afterTransfer s q nt' with
+              | none => simp [ha] at h
+              | some s7 =>
+                simp only [ha, Option.some.injEq, Prod.mk.injEq] at h
+                rw [← h.1]
+                exact TSub.of_eq (afterTransfer_sameTD hinv ha).1
           | some p =>
             obtain ⟨s4, ch⟩ := p
             simp only [he] at h
